@@ -133,6 +133,36 @@ fn exec_grid(t: &mut Tape, st: &mut Stats) -> Result<(), String> {
     check_n(api, kind, n.max(min_room), false, st)
 }
 
+/// Stage 'large': buffers far beyond one chunk - around k full chunks (k up to 100) and around 2^15 .. 2^20 (2^21 thorough) -
+/// with the same input ladder (incl. 2n, the advertised maximum and its neighbours): 16-bit or 32-bit narrowing of a chunk or
+/// buffer length, and sizing that is only right for the first chunk of a write, show here and nowhere below 64 KiB.
+fn large_n(tier: Tier, idx: u64) -> usize {
+    let ks: &[u64] = if tier == Tier::Quick { &[1, 2, 3, 4, 5, 6, 7, 8, 20, 100] } else { &[1, 2, 3, 4, 5, 6, 7, 8, 9, 10, 11, 12, 13, 20, 31, 50, 64, 100, 150, 200] };
+    let around_chunks = ks.len() as u64 * 28;
+    if idx < around_chunks {
+        let k = ks[(idx / 28) as usize];
+        return (k * 10_248 + idx % 28) as usize - 3;
+    }
+    let j = idx - around_chunks;
+    let p = 15 + j / 25;
+    ((1u64 << p) + j % 25) as usize - 8
+}
+
+fn large_count(tier: Tier) -> u64 {
+    match tier {
+        Tier::Quick => 10 * 28 + 6 * 25,
+        Tier::Thorough => 20 * 28 + 7 * 25,
+    }
+}
+
+fn exec_large(t: &mut Tape, st: &mut Stats) -> Result<(), String> {
+    let api = if t.below(2) == 0 { Api::Flow } else { Api::Call };
+    let kind = if t.below(4) == 3 { Kind::Sized(u64::MAX) } else { Kind::DefaultChunked };
+    let n = t.below(1 << 22);
+    st.class("large_buffer");
+    check_n(api, kind, n.max(6), false, st)
+}
+
 fn exec_small(t: &mut Tape, st: &mut Stats) -> Result<(), String> {
     let api = if t.below(2) == 0 { Api::Flow } else { Api::Call };
     let n = t.below(301).max(6);
@@ -351,7 +381,7 @@ pub static DEF: PropDef = PropDef {
 {Flow, Call} x {chunked, length-delimited}; for each n a ladder of input lengths {1,2,3,15..17,n-9..n+1,2n,m-1,m,m+1,\
 chunk-1,chunk,chunk+1,2chunk,2chunk+1,30000} is offered to fresh senders: consumed >= 1, consumed(L) >= \
 consumed(min(L, m)) with m = calculate_max_input(n), consumed non-decreasing along the ladder, output strictly \
-decodes to the consumed prefix. enumeration 'small' (thorough): all L <= 300 for all n <= 300. random 'loops': \
+decodes to the consumed prefix. enumeration 'small' (thorough): all L <= 300 for all n <= 300. enumeration 'large': outputs around k full chunks (k up to 100; thorough 200) and around 2^15..2^20 (2^21), same ladder incl. 2n. random 'loops': \
 whole-body send loops with a fixed buffer must terminate within |body| writes and decode to the body. \
 random 'histories': 2..10 writes on one body with buffers that grow and shrink (6..12, hex-digit boundaries, up to 12000), inputs \
 around the buffer size and around 16 / 256 / 4096 / 8192 / 10240, calculate_max_input() asked about the same or another size and failed finishing attempts (buffer 0..4) in \
@@ -369,6 +399,13 @@ operations (overshooting write, overshooting direct-write report), after which l
             tape: |tier, idx| vec![(idx % 2) as u32, ((idx / 2) % 2) as u32, grid_n(tier, idx / 4)],
             exhaustive: true,
             exec: None,
+        },
+        EnumDef {
+            name: "large",
+            count: |t: Tier| 2 * 4 * large_count(t),
+            tape: |tier, idx| vec![(idx % 2) as u32, ((idx / 2) % 4) as u32, large_n(tier, idx / 8) as u32],
+            exhaustive: true,
+            exec: Some(exec_large),
         },
         EnumDef {
             name: "small",
